@@ -57,7 +57,7 @@ MECHANISMS = [
     ('TotalDepth.DeTif', 'strip_tif'),
 ]
 REQUIRED_MONITORS = ['writer_vs_encoder', 'write_positions', 'checksum_values', 'strip_tif', 'read_history', 'read_data', 'tellLr', 'tell',
-                     'exhaustive_splits',
+                     'exhaustive_splits', 'scan_generators',
                      'contract:PhysRecRead._readHead', 'contract:PhysRecRead._readTail', 'contract:PhysRecRead.__readOrSkip',
                      'contract:PhysRecRead.readLrBytes', 'contract:PhysRecRead.skipLrBytes', 'contract:PhysRecRead.skipToNextLr',
                      'contract:PhysRecRead.seekLr', 'contract:TifMarkerRead._read', 'contract:TifMarkerRead.reset']
@@ -572,6 +572,46 @@ def run_history(ctl, File, TapFile, data, model, info, target, htype, make_ops, 
     return ok
 
 
+def scan_generators(ctl, T, data, model, info, target, rng):
+    """The scanning generators of the physical record reader (what ScanPhysRec / ScanLogiData and the padding scan use): genLd() gives,
+    physical record by physical record in file order, the logical data of each and whether it begins a logical record; genPr() gives
+    one step per physical record.  Both rewind first, so they are started after some ordinary reads from any position."""
+    rec = ctl.rec
+    tap = T['TapFile'](data)
+    try:
+        prh = T['PhysRec'].PhysRecRead(tap, 'c05', False)
+        # ordinary use first: a whole record or two and a sized read, so that the generator has a state to rewind from
+        for _ in range(rng.randrange(0, 3)):
+            if prh.readLrBytes(rng.choice([-1, 1, 2, 7])) is None:
+                break
+        expected = [(data[p.payload_position:p.payload_end], p.lr_offset == 0) for p in model.phys]
+        got = []
+        for ld, is_start in prh.genLd():
+            got.append((bytes(ld), bool(is_start)))
+            if len(got) > len(expected) + 4:
+                break
+        rec.mon('scan_generators')
+        rec.add('scan_generator_physical_records', len(got))
+        if got != expected:
+            k = next((i for i, (a, b) in enumerate(zip(got, expected)) if a != b), min(len(got), len(expected)))
+            ctl.violation('scan_generators', 'genLd', 'genLd() gives %d pieces for %d physical records; first difference at piece %d: got %r, written %r [%s]' % (
+                len(got), len(expected), k, (_short(got[k][0]), got[k][1]) if k < len(got) else None, (_short(expected[k][0]), expected[k][1]) if k < len(expected) else None, target),
+                witness_of(info, model, data, target, [], None, {'kind': 'genLd', 'piece': k}))
+            return
+        # the logical records are the pieces joined from one start mark to the next
+        n = 0
+        for _ in prh.genPr():
+            n += 1
+            if n > len(expected) + 4:
+                break
+        if n != len(expected):
+            ctl.violation('scan_generators', 'genPr', 'genPr() steps through %d physical records, the file has %d [%s]' % (n, len(expected), target),
+                          witness_of(info, model, data, target, [], None, {'kind': 'genPr', 'steps': n}))
+    except Exception as e:  # noqa
+        ctl.violation('scan_generators', 'raised', 'scanning generators raised %s: %s [%s]' % (type(e).__name__, e, target),
+                      witness_of(info, model, data, target, [], None, {'kind': 'scan-raised'}), exc=e)
+
+
 def drain_contracts(ctl, T, info, model):
     """Contract breaches recorded while this file was being read (conditions never raise)."""
     for name, msg in T['contracts'].drain():
@@ -876,6 +916,8 @@ def do_file(ctl, T, G, seed, part, fi, tier):
             # a third of the random histories use the reader's tolerant mode: on a conformant file it must change nothing
             kg = hr.random() < 0.33
             run_history(ctl, File, TapFile, data, m, info, name, 'random', lambda cur: random_history(hr, nops, cur, cap), keep_going=kg)
+    for name, data, m in targets:
+        scan_generators(ctl, T, data, m, info, name, random.Random('C05g:%s:%s:%s:%s' % (seed, part, fi, name)))
     if path is not None:
         try:
             os.remove(path)
